@@ -923,3 +923,16 @@ Definition entries_call_ok (c : string * string * string * string) : bool :=
   let '(f, fn, shape, _) := c in
   String.eqb shape "singletons" || existsb (fun a => String.eqb f (fst a) && String.eqb fn (snd a)) entries_call_allow.
 Definition entries_calls_ok (cs : list (string * string * string * string)) : bool := forallb entries_call_ok cs.
+
+(* the recover scopes of writer/: the only functions that call recover(), and how many `defer` statements name them
+   (by bare name: the three parser goroutines defer p.tamePanic(); controller/shared.go tamePanic is the fiber-era
+   handler wrapper, deferred nowhere).  A recover() added elsewhere would swallow panics silently; one removed here
+   is a crash. *)
+Definition recover_scopes_model : list (string * string * Z) :=
+  [("controller/shared.go", "tamePanic", 3%Z); ("utils/unmarshal/builder.go", "parserDoer.tamePanic", 3%Z)].
+Fixpoint scopes_eqb (a b : list (string * string * Z)) : bool :=
+  match a, b with
+  | [], [] => true
+  | (f, fn, n) :: r, (f', fn', n') :: r' => String.eqb f f' && String.eqb fn fn' && Z.eqb n n' && scopes_eqb r r'
+  | _, _ => false
+  end.
